@@ -653,7 +653,7 @@ fn syntax_faults(rng: &mut Rng, base: &str) -> String {
 
 const STRAYS: &[&str] = &[
     "$", "@", "!", "~", "^", "&", "%", "?", "|", "\\", "\"", "'", "`", "[", "]", ",", ".", "é", "∀", "λ", "→", "🙂", "e\u{301}",
-    "\u{200d}", "👩\u{200d}💻", "\u{0}", "\u{7f}", "ß", "中",
+    "\u{200d}", "👩\u{200d}💻", "\u{0}", "\u{7f}", "ß", "中", "✓", "✓\u{fe0f}", "❤", "❤\u{fe0f}",
 ];
 
 /// W5: several stray symbols.
@@ -898,6 +898,22 @@ fn holes_program(rng: &mut Rng) -> String {
             text.push_str(&format!("  y : ({a} -> {b}) = x\n  y\nf\n"));
             text
         }
+        3 | 4 if rng.chance(1, 3) => {
+            // an unannotated recursive definition whose inferred type would have to contain itself
+            // (the occurs check is what rejects it), hidden behind n unannotated parameters
+            let n = rng.range(0, 16);
+            let names: Vec<String> = (0..n).map(|i| format!("a{i}")).collect();
+            let mut body = "f".to_owned();
+            for name in &names {
+                body = format!("(if true then {body} else {name})");
+            }
+            let binders: String = names.iter().map(|a| format!("({a} : _) => ")).collect();
+            if n == 0 {
+                "f = (x : int) => f\nf 1\n".to_owned()
+            } else {
+                format!("f = {binders}\n  {body}\nf\n")
+            }
+        }
         _ => "(a : _) => (b : _) => (c : _ -> _ -> _) => c a b\n".to_owned(),
     }
 }
@@ -1012,6 +1028,23 @@ fn many_errors_program(rng: &mut Rng) -> String {
                 text.push_str(&format!("dup{} = {i}\n", i % 5));
             }
             text.push_str("dup0\n");
+            text
+        }
+        5 if rng.chance(1, 2) => {
+            // the same stray symbols in two spellings that differ only by an invisible variation
+            // selector (text pasted from chats): anything that compares or de-duplicates them has
+            // to decide whether they are "the same"
+            let bases = ["✓", "★", "❤", "☎", "✂", "✈", "✉", "☀", "☂"];
+            let k = rng.range(2, bases.len());
+            let mut text = String::from("# pasted\n");
+            for (i, b) in bases.iter().take(k).enumerate() {
+                text.push_str(&format!("x{i} = {i} {b}\n"));
+            }
+            for (i, b) in bases.iter().take(k).enumerate() {
+                let sel = if rng.chance(3, 4) { "\u{fe0f}" } else { "\u{fe0e}" };
+                text.push_str(&format!("y{i} = x{i} + 1 {b}{sel}\n"));
+            }
+            text.push_str("y0\n");
             text
         }
         _ => {
